@@ -43,7 +43,7 @@ def child_program(duration, outcome, tag):
             'steps': [{'async': True, 'awaits': [duration], 'effects': [[{'e': 'out', 'k': 'r', 'v': tag}], []], 'ret': ret}]}
 
 
-def make_program(items_a, via, items_b=None):
+def make_program(items_a, via, items_b=None, shape='flat'):
     """items: list of (key, aref) ; via: 'ret' | 'call' | 'both'."""
     def step(items):
         effects, returned = [], {}
@@ -55,8 +55,31 @@ def make_program(items_a, via, items_b=None):
                 returned[key] = aref
         return {'effects': effects, 'ret': {'t': 'tocontext', 'items': returned} if returned else None}
 
-    steps = {'A': step(items_a), 'B': step(items_b or []), 'C': {'effects': [], 'ret': None}}
-    return {'kind': 'workchain', 'outline': [['s', 'A'], ['s', 'B'], ['s', 'C']], 'steps': steps, 'preds': {}, 'children': []}
+    steps = {'A': step(items_a), 'B': step(items_b or []), 'C': {'effects': [], 'ret': None},
+             'X': {'effects': [], 'ret': None}}
+    outline, preds = SHAPES[shape]
+    return {'kind': 'workchain', 'outline': copy.deepcopy(outline), 'steps': steps, 'preds': copy.deepcopy(preds), 'children': [],
+            'shape': shape}
+
+
+# Where the steps that hand over awaitables sit in the outline: A, B, C are executed once each and in this order in every
+# shape (X is a filler that does nothing); what differs is which stepper has to pass the ToContext on and resume after it.
+_T, _F, _ONCE = {'pt': [True]}, {'pf': [False]}, {'pw': [True, False]}
+A, B, C, X = ['s', 'A'], ['s', 'B'], ['s', 'C'], ['s', 'X']
+SHAPES = {
+    'flat': ([A, B, C], {}),
+    'if_last': ([['if', [['pt', [A]]], None], B, C], _T),
+    'else_last': ([['if', [['pf', [X]]], [A]], B, C], _F),
+    'elif_last': ([['if', [['pf', [X]], ['pt', [A]]], None], B, C], dict(_T, **_F)),
+    'if_second': ([['if', [['pt', [X, A]]], None], B, C], _T),
+    'if_both': ([['if', [['pt', [A, B]]], None], C], _T),
+    'if_b': ([A, ['if', [['pt', [B]]], None], C], _T),
+    'while_last': ([['while', 'pw', [A]], B, C], _ONCE),
+    'while_both': ([['while', 'pw', [A, B]], C], _ONCE),
+    'nested_if': ([['if', [['pt', [['if', [['pt2', [A]]], None]]]], None], B, C], {'pt': [True], 'pt2': [True]}),
+    'while_if': ([['while', 'pw', [['if', [['pt', [A]]], None]]], B, C], dict(_T, **_ONCE)),
+    'if_while': ([['if', [['pt', [['while', 'pw', [A]], B]]], None], C], dict(_T, **_ONCE)),
+}
 
 
 def systematic(tier):
@@ -78,6 +101,13 @@ def systematic(tier):
             for via in ('ret', 'call'):
                 program = make_program([(f'k{i}', {'fut': i, 'pre': outcomes[i], 'v': f'pre{i}'}) for i in range(n)], via)
                 cases.append({'program': program, 'schedule': [], 'opts': {}, 'via': via, 'origin': 'systematic:pre'})
+    for shape in sorted(SHAPES):
+        for via in ('ret', 'call'):
+            program = make_program([('k0', {'fut': 0}), ('k1', {'fut': 1})], via, [('k2', {'fut': 2})], shape)
+            for order in ((0, 1, 2), (1, 0, 2)):
+                schedule = [{'act': 'complete', 'fut': fut, 'how': 'value', 'v': f'v{fut}', 'at': 40 + j}
+                            for j, fut in enumerate(order)]
+                cases.append({'program': program, 'schedule': schedule, 'opts': {}, 'via': via, 'origin': f'systematic:{shape}'})
     _sys_cache[tier] = cases
     return cases
 
@@ -115,7 +145,8 @@ def random_case(rng, tier):
             children.append(child_program(rng.choice([0, 0.5, 1]), 'ok' if rng.random() < 0.7 else 'raise', f'c{len(children)}'))
             early.append(len(children) - 1)
             items_b.append((f'e{len(children) - 1}', {'child_ref': len(children) - 1}))
-    program = make_program(items_a, via, items_b)
+    shape = 'flat' if rng.random() < 0.4 else rng.choice(sorted(SHAPES))
+    program = make_program(items_a, via, items_b, shape)
     if rng.random() < 0.2:
         for name in ('A', 'B'):
             if program['steps'][name]['ret']:
@@ -211,6 +242,7 @@ def _oracle(engine, result, case, drive):
     n_items = len(barriers['A'])
     result.counters[f'items:{n_items}'] += 1
     result.counters[f'via:{case.get("via", "ret")}'] += 1
+    result.counters[f'shape:{program.get("shape", "flat")}'] += 1
     if len({k for k, _ in barriers['A']} & {k for k, _ in barriers['B']}):
         result.counters['probe:reassigned_key'] += 1
     for name in order:
